@@ -33,7 +33,7 @@ TInit ==
   /\ vis = {} /\ tot = 0 /\ sps = <<>> /\ scale = 0 /\ reqs = <<>> /\ posts = <<>> /\ scales = <<>>
 
 EnvStep(a) ==
-  /\ pc = "idle" /\ UNCHANGED <<nsh, sc, est, clock, faults, envs, cyc, kvars>>
+  /\ pc = "idle" /\ UNCHANGED <<nsh, sc, clock, faults, envs, cyc, kvars>>
   /\ CASE a.a = "add" -> AddT(a.t)
        [] a.a = "remove" -> RemoveT(a.t)
        [] a.a = "size" -> SetSize(a.t, SizeOf(a))
